@@ -812,6 +812,11 @@ func systematic() []history {
 	add("echo-overlap", nil, pr("p", 14, "b"), op{K: "F", Name: 14}, pr("o", 0, "c"))
 	big := strings.Repeat("0123456789abcdef", 4100) // 65600 bytes: more than outputBufSize
 	add("stream-buffer-overflow", old, pr("a", 1, "head "), pr("a", 1, big), pr("a", 1, " tail"), pr("p", 10, "x"), pr("p", 10, big), pr("p", 10, "y"))
+	add("flush-at-pipe-open", nil, pr("o", 0, "abcdef"), pr("p", 10, "x"), pr("o", 0, "y"))
+	add("flush-at-getline-cmd", nil, pr("o", 0, "abcdef"), op{K: "K", Name: 15}, pr("o", 0, "y"))
+	add("flush-at-file-open", nil, pr("o", 0, "abcdef"), pr("t", 1, "x"), pr("o", 0, "y"))
+	add("flush-at-devstdout", nil, pr("o", 0, "abcdef"), pr("v", 0, "g"), pr("d", 0, "h"), pr("o", 0, "y"))
+	add("copy-goroutine-entry-check", nil, pr("o", 0, "abcdef"), pr("p", 10, "x"), op{K: "C", Name: 10}, pr("p", 11, "x"), op{K: "C", Name: 11})
 	add("exact-fill", nil, pr("p", 10, "x"), pr("o", 0, "0123456789abcdef"), op{K: "C", Name: 10}, pr("o", 0, "z"))
 	return hs
 }
